@@ -10,7 +10,7 @@ for D in "$SRC/$ID"/m*; do
   k="$(basename "$D")"
   cmd="$(python3 -c "import json,sys; print(json.load(open('$D/meta.json')).get('demo_cmd','') )" 2>/dev/null)"
   case "$cmd" in *"cargo run"*) : ;; *) cmd="cargo run --offline --example demo" ;; esac
-  cmd="$(echo "$cmd" | sed -E 's#^cd [^&]*&& *##')"
+  cmd="$(echo "$cmd" | sed -E 's#^cd [^&]*&& *##; s#  +\(.*$##; s# *\#.*$##')"
   clean
   cp "$D/demo.rs" "$WT/cozy-chess/examples/demo.rs"
   ( cd "$WT" && eval "$cmd" ) > "$D/confirm_clean.log" 2>&1; rc_clean=$?
